@@ -12,6 +12,7 @@ import (
 	"os"
 	"os/exec"
 	"path/filepath"
+	"strings"
 	"sync"
 	"sync/atomic"
 	"syscall"
@@ -441,6 +442,11 @@ func startServerIn(bin, base, dir string, env []string) (*exec.Cmd, string, *byt
 		cmd.Stderr = &buf
 		cmd.Env = env
 		cmd.SysProcAttr = &syscall.SysProcAttr{Pdeathsig: syscall.SIGKILL}
+		if strings.HasPrefix(dir, "uid65534:") {
+			// run the server as an unprivileged user (the binary is copied to a place that user can reach)
+			cmd.Dir = strings.TrimPrefix(dir, "uid65534:")
+			cmd.SysProcAttr.Credential = &syscall.Credential{Uid: 65534, Gid: 65534}
+		}
 		if err := cmd.Start(); err != nil {
 			return nil, "", nil, err
 		}
